@@ -424,7 +424,10 @@ def check_stream_class(chk, db, rect, kind, rule, rule_status):
         if len(m['params']) == 2 and m['n'] in ('Read', 'Write'):
             need = Poly.atom('p:' + m['params'][1]['n']) - Poly.atom('p:' + m['params'][0]['n'])   # void* range: bytes
         try:
-            paths = symx.paths_of(db, m, lambda callee, call: False)   # keep the helper call visible
+            # keep the status helper's call visible; any other private helper of the class is part of the primitive (inlined)
+            def inline(callee, call):
+                return 'obj' in call and ir.strip(call['obj']).get('k') == 'this' and callee.get('n') not in helper_names
+            paths = symx.paths_of(db, m, inline)
         except symx.Unsupported as e:
             chk.unanalysable(rule, where, 'cannot summarise %s: %s' % (label, e))
             continue
